@@ -84,7 +84,25 @@ impl BuildJob<'_> {
     ) -> Result<Pin<Box<dyn Future<Output = i32> + 'a>>, RedoError> {
         let before_t = try_stat(self.t.as_path()).map_err(RedoError::opaque_error)?;
         debug_assert!(self.lock.is_owned());
-        let (is_target, dirty) = (self.should_build_func)(&mut ptx, &self.t)?;
+        let (is_target, dirty) = match (self.should_build_func)(&mut ptx, &self.t) {
+            Ok(r) => r,
+            Err(e) => {
+                // A target that cannot be considered (for example because it
+                // already failed in this run) fails like a job would; it must
+                // not tear down the other jobs of this process.
+                let mut cause: Option<&(dyn std::error::Error + 'static)> = Some(&e);
+                while let Some(c) = cause {
+                    if let Some(RedoErrorKind::ImmediateExit(code)) =
+                        c.downcast_ref::<RedoError>().map(|re| re.kind())
+                    {
+                        log_err!("{}\n", e);
+                        return Ok(Box::pin(future::ready(*code)));
+                    }
+                    cause = c.source();
+                }
+                return Err(e);
+            }
+        };
         match dirty {
             Dirtiness::Clean => {
                 // Target doesn't need to be built; skip the whole task.
